@@ -29,7 +29,7 @@ RULE = (
     "candidates over values {0,1,2} x tags {None,'a','b'} (and table[...] = c); stateless pass: every "
     "history of depth D x every split into batches x 6 policy pairs replayed on fresh objects. "
     "distinct_nontrivial = distinct product states in which a tag set is non-empty or the entry was "
-    "improved at least once (BFS) ; combine: every pair of reachable states x 7 combinators (three of them with a tag-dependent value)."
+    "improved at least once (BFS) ; combine: every pair of reachable states x 8 combinators (three of them with a tag-dependent value, one untagged)."
 )
 ASSUMPTIONS = [
     "CPython semantics; infinity package's inf ordering",
@@ -44,7 +44,7 @@ ALPHABET = [(v, t) for v in VALUES for t in TAGS]
 MERGES = ("MIN", "MAX")
 RETENTIONS = ("NONE", "ANY", "ALL")
 
-OBJECTS = ("entry", "entry_init", "table_entry", "t1dict", "t1list", "t2", "t3", "t3mixed", "t2ll", "t3ll")
+OBJECTS = ("entry", "entry_init", "entry_snapshot", "table_entry", "t1dict", "t1list", "t2", "t3", "t3mixed", "t2ll", "t3ll")
 ADDR = {
     "t1dict": ((DictDimension,), ("k",)),
     "t1list": ((lambda: ListDimension(2),), (1,)),
@@ -89,6 +89,13 @@ class Subject:
             self.ref = RefEntry(merge)
         elif kind == "entry_init":
             self.entry = Entry(init[0], list(init[1]), mp_, rp)
+            self.ref = RefEntry(merge, init)
+        elif kind == "entry_snapshot":
+            # a copy of another entry made through the (value, infos) constructor, given the very set that infos() returns:
+            # the two entries must live separate lives from then on
+            self.source = Entry(init[0], list(init[1]), mp_, rp)
+            self.source_before = (numkey(self.source.value()), frozenset(self.source.infos()))
+            self.entry = Entry(self.source.value(), self.source.infos(), mp_, rp)
             self.ref = RefEntry(merge, init)
         elif kind == "table_entry":
             tab = Table((DictDimension(),), mp_, rp)
@@ -174,6 +181,10 @@ class Subject:
     def check(self):
         """invariant; returns None or a discrepancy string"""
         pairs = [(self.cell(), self.ref)]
+        if self.kind == "entry_snapshot":
+            now = (numkey(self.source.value()), frozenset(self.source.infos()))
+            if now != self.source_before:
+                return f"the entry this one was copied from changed from {self.source_before} to {now}"
         if self.table is not None:
             pairs.append((self.cell(self.other), self.ref_other))
             pairs.append((self.handle, self.ref))
@@ -258,7 +269,7 @@ def plan(tier, seed):
         for ret in RETENTIONS:
             for kind in OBJECTS:
                 inits = [None]
-                if kind == "entry_init":
+                if kind in ("entry_init", "entry_snapshot"):
                     inits = INITS[ret]
                 elif kind == "table_entry":
                     inits = [None] + INITS[ret][:2]
@@ -355,6 +366,8 @@ COMBINATORS = {
     # the pairs of retained candidates are then no longer tied, so "optimum over all pairs" is not "any pair"
     "sum_same_tag_penalty": lambda l, r: Candidate(l.value + r.value + (1 if l.info == r.info else 0), (l.info, r.info)),
     "sum_pair_bonus": lambda l, r: Candidate(l.value + r.value - (1 if (l.info, r.info) == ("b", "a") else 0), (l.info, r.info)),
+    # a cost-only combinator: the pairs carry no tag at all (the result has the optimum and no tags)
+    "sum_untagged": lambda l, r: Candidate(l.value + r.value, None),
     "tag_selects_side": lambda l, r: Candidate(l.value if l.info == "a" else r.value + 1, (l.info, r.info)),
 }
 
